@@ -21,7 +21,8 @@ ProfCore == [Base EXCEPT !.classes = {"A", "T"}, !.methods = {"pt", "n", "trks",
 ProfTiny == Base
 
 \* C03: every terminal form x element kind, implicit and explicit (AsROOTTTree) trees
-ProfSchema == [Base EXCEPT !.methods = {"pt", "n", "m", "ok"}, !.consts = {<<"int", 1, 1>>, <<"double", 1, 2>>},
+\* (the floating constant is a WHOLE number, 2.0: its column must still be a floating column)
+ProfSchema == [Base EXCEPT !.methods = {"pt", "n", "m", "ok"}, !.consts = {<<"int", 1, 1>>, <<"double", 2, 1>>},
                  !.binops = {"/"}, !.ifexp = TRUE, !.aggs = {"Count"}, !.where = FALSE,
                  !.rows = {"bool", "seq", "seqseq", "tuple", "list", "dict"}, !.rootnames = {1, 2}]
 
